@@ -61,8 +61,11 @@ pub fn composable(v: u16) -> bool {
 pub fn max_len(tier: &str) -> u32 {
     if tier == "thorough" { 5 } else { 4 }
 }
+/// quick: every 5th composable prefix.  The stride must be coprime to the period of the code layout
+/// (6 tone values x 14 rime values = 84 consecutive composable codes per initial/medial pair): a stride
+/// of 12 never reached a prefix ending in the rime index 8 without tone (seeded change C13-A).
 pub fn prefix_stride(tier: &str) -> usize {
-    if tier == "thorough" { 1 } else { 12 }
+    if tier == "thorough" { 1 } else { 5 }
 }
 
 fn views(tier: &str, out: &str) -> i32 {
